@@ -30,7 +30,17 @@ def main() -> int:
     ap.add_argument("--repo", default=None, help="analyse this tree instead of /repo (development only)")
     ap.add_argument("--no-evidence", action="store_true")
     ap.add_argument("--no-selftest", action="store_true")
+    ap.add_argument("--replay", help="replay file written by a failing run: re-runs the rules it names, verbosely")
     args = ap.parse_args()
+    if args.replay:
+        import json
+        rp = json.load(open(args.replay))
+        args.property = rp["property"]
+        args.verbose = True
+        args.no_evidence = True
+        replay_rules = sorted({v["rule"] for v in rp.get("violations", [])})
+    else:
+        replay_rules = None
 
     from sa import report
     from sa.model import AnalysisError, Repo
@@ -50,6 +60,12 @@ def main() -> int:
         if p not in PROPS:
             print(f"ANALYSIS-ERROR: unknown property {p}")
             return 2
+        if replay_rules:
+            worst_r = 0
+            for rr in replay_rules:
+                res = report.run_property(repo, p, args.tier, rr)
+                worst_r = max(worst_r, report.report(res, True))
+            return worst_r
         res = report.run_property(repo, p, args.tier, args.rule)
         extra = {}
         if args.tier == "thorough" and not args.no_selftest and not res.violations and not res.errors and not args.rule:
